@@ -22,7 +22,10 @@ RULE = (
     "points and decisions, rates and the final csv must equal the uninterrupted run; user entries "
     "(str incl. commas/quotes/empty, int, float) must come back with their types. A history is non-trivial "
     "when it contains a stop or a rate reduction; states are distinct (csv text, directory listing, cache) "
-    "triples, transitions are updates and restarts."
+    "triples, transitions are updates and restarts. VALUE REGIMES: every metric sequence of length 4 over {0,.5,1}, "
+    "{-1,-.5,0,.5}, {1,2,3}x1e6, {1,2,3}x1e-6 and the Python ints {0,1,2} (thresholds scaled alike) x 17 rule "
+    "configurations against the same reference, and every length-3 sequence x every restart subset for one joint "
+    "configuration per alphabet; the training metric always differs from the validation metric."
 )
 ASSUMPTIONS = [
     "metrics and reachable learning rates are exactly representable in the csv's 5 significant digits "
@@ -104,6 +107,23 @@ def metric_seqs(tier, L):
 
 def train_metric(v, e):
     return 4.0 - v  # a different ordering from the validation metric
+
+
+# VALUE REGIMES (round 6): metric alphabets the rules are stated for but the {1,2,3} menu never reaches - an exact zero,
+# negative metrics (log-likelihood style losses), magnitudes far from 1 - and Python ints for the metrics; every value prints
+# exactly in the csv's 5 significant digits.  The training metric stays different from the validation metric (4 - v).
+REGIME_VALS = {"zero": (0.0, 0.5, 1.0), "negative": (-1.0, -0.5, 0.0, 0.5), "large": (1e6, 2e6, 3e6),
+               "small": (1e-6, 2e-6, 3e-6), "ints": (0, 1, 2)}
+REGIME_SCALE = {"zero": 1.0, "negative": 1.0, "large": 1e6, "small": 1e-6, "ints": 1}
+
+
+def regime_grid(scale):
+    for pat, burn, thr in itertools.product((1, 2), (0, 1), (0.5, 1.0)):
+        yield {"early_stopping_patience": pat, "early_stopping_burnin": burn, "early_stopping_threshold": thr * scale}
+        yield {"reduce_lr_patience": pat, "reduce_lr_burnin": burn, "reduce_lr_cooldown": burn,
+               "reduce_lr_threshold": thr * scale, "reduce_lr_factor": 0.5}
+    yield {"early_stopping_patience": 2, "early_stopping_threshold": 0.5 * scale, "reduce_lr_patience": 1,
+           "reduce_lr_threshold": 0.5 * scale, "reduce_lr_factor": 0.5, "num_epochs": 3}
 
 
 def run_history(ctx, cfg, metrics, restarts, with_state, root_name="c15", memory_only=False, poke=False):
@@ -207,7 +227,10 @@ def run_history(ctx, cfg, metrics, restarts, with_state, root_name="c15", memory
             return None
         for k, val in info.items():
             g = got.get(k)
-            same = type(g) is type(val) and (g == val or (isinstance(val, float) and k not in T.USER_TYPES
+            # type identity is demanded of USER entries only (the property's clause); a built-in metric handed in as a
+            # Python int may legitimately be read back as the float the csv holds
+            same = (type(g) is type(val) or (k not in T.USER_TYPES and isinstance(g, (int, float))
+                                             and isinstance(val, (int, float)))) and (g == val or (isinstance(val, float) and k not in T.USER_TYPES
                                                           and abs(g - val) <= 5e-5 * abs(val)))  # csv keeps 5 digits
             if not same:
                 ctx.violation({"api": "history", "symptom": "entry-changed-after-reload", "field":
@@ -311,6 +334,20 @@ def run_shard(spec, tier, seed):
                     if i % NSHARDS != part:
                         continue
                     _rules_case(ctx, cfg, metrics)
+        for name, vals in REGIME_VALS.items():
+            for cfg in regime_grid(REGIME_SCALE[name]):
+                for metrics in itertools.product(vals, repeat=4):
+                    i += 1
+                    if i % NSHARDS != part:
+                        continue
+                    ctx.count("value_regime_histories:" + name)
+                    _rules_case(ctx, cfg, metrics)
+            for metrics in itertools.product(vals, repeat=3):
+                i += 1
+                if i % NSHARDS != part:
+                    continue
+                _restart_case(ctx, dict(list(regime_grid(REGIME_SCALE[name]))[-1], num_epochs=None, user_entries=()),
+                              metrics)
         for cfg in restart_grid(tier):
             for metrics in metric_seqs(tier, LR):
                 i += 1
